@@ -15,6 +15,7 @@ import (
 	"crypto/x509"
 	"errors"
 	"fmt"
+	"strings"
 	"sync"
 	"time"
 
@@ -286,6 +287,9 @@ func main() {
 		if c.Level >= 0 {
 			L = lib.AllLevelMaps()[c.Level]
 		}
+		if strings.HasPrefix(c.Token, "tsa-") && ci%2 == 1 {
+			L.Rev = "skip" // skipping revocation of the SIGNING chain must not skip the check that the TSA is unrevoked
+		}
 		strict := !(L.Auth == "log" && L.TS == "log" && L.Exp == "log") // evaluation may stop early: missing results are not judged
 		sv := L.SV(ci)
 		sv.VerifyTimestamp = trustpolicy.TimestampOption(c.VT)
@@ -372,9 +376,74 @@ func main() {
 			r.Violation(sigm("strict-accepts-failure"), id+": strict verification succeeded although expiry/authenticTimestamp failed", wit)
 		}
 	}, r.PanicViolation("verifier.Verify"))
+	longLivedVerifier(r, root, desc, payload)
 	r.RequireAtLeast("timestamp-pass", 200)
 	r.RequireAtLeast("timestamp-fail", 1000)
 	r.RequireAtLeast("timestamp-branch-good-token", 50)
 	r.RequireAtLeast("expiry-results", 1000)
 	r.Finish()
+}
+
+
+// longLivedVerifier: the clock is the moment of EACH verification. A verifier is used once, then a signature whose expiry
+// (and a leaf certificate whose notAfter) lies 2-3 s in the future is minted; the harness waits until both instants are
+// more than one second in the past and verifies through the SAME verifier and through a fresh one. Sound for every
+// schedule: the verifications happen strictly after the instants, however long the machine takes.
+func longLivedVerifier(r *lib.Run, root *lib.Ent, desc ocispec.Descriptor, payload []byte) {
+	ctx := context.Background()
+	for _, format := range lib.Formats {
+		now := time.Now()
+		iss := lib.Mint(root, lib.CertSpec{CN: "c06-ll-issuer", Kind: "ca", KeyIdx: 4, PathLen: 1})
+		okLeaf := lib.Mint(iss, lib.CertSpec{CN: "c06-ll-ok", Kind: "codesign", KeyIdx: 0})
+		shortLeaf := lib.Mint(iss, lib.CertSpec{CN: "c06-ll-short", Kind: "codesign", KeyIdx: 1, NotBefore: now.Add(-time.Hour), NotAfter: now.Add(3 * time.Second).Truncate(time.Second)})
+		mk := func() interface {
+			Verify(context.Context, ocispec.Descriptor, []byte, notation.VerifierVerifyOptions) (*notation.VerificationOutcome, error)
+		} {
+			L := lib.LevelMap{Auth: "log", TS: "log", Exp: "log", Rev: "log"}
+			v, err := verifier.NewVerifierWithOptions(lib.NewMemTS().Put("ca:x", root.Cert), verifier.VerifierOptions{OCITrustPolicy: lib.OCIPolicy(L.SV(0), []string{"ca:x"}, []string{"*"}), RevocationCodeSigningValidator: lib.OKRev{}, RevocationTimestampingValidator: lib.OKRev{}})
+			if err != nil {
+				panic(err)
+			}
+			return v
+		}
+		long := mk()
+		opts := notation.VerifierVerifyOptions{ArtifactReference: "r.io/a@" + desc.Digest.String(), SignatureMediaType: format}
+		first := lib.MustCoreSign(lib.SignSpec{Format: format, Payload: payload, Signer: okLeaf, SigningTime: now.Add(-time.Minute)})
+		if _, err := long.Verify(ctx, desc, first, opts); err != nil {
+			r.Inconclusive("long-lived verifier scenario: first verification failed: " + err.Error())
+			return
+		}
+		expiry := time.Now().Add(2 * time.Second).Truncate(time.Second)
+		expiring, err1 := lib.CoreSign(lib.SignSpec{Format: format, Payload: payload, Signer: okLeaf, SigningTime: time.Now().Add(-time.Second), Expiry: expiry})
+		shortLived, err2 := lib.CoreSign(lib.SignSpec{Format: format, Payload: payload, Signer: shortLeaf, SigningTime: time.Now().Add(-time.Second)})
+		if err1 != nil || err2 != nil {
+			r.Inconclusive(fmt.Sprintf("long-lived verifier scenario: cannot sign: %v %v", err1, err2))
+			return
+		}
+		deadline := shortLeaf.Cert.NotAfter
+		if expiry.After(deadline) {
+			deadline = expiry
+		}
+		time.Sleep(time.Until(deadline.Add(1200 * time.Millisecond)))
+		for name, v := range map[string]interface {
+			Verify(context.Context, ocispec.Descriptor, []byte, notation.VerifierVerifyOptions) (*notation.VerificationOutcome, error)
+		}{"long-lived": long, "fresh": mk()} {
+			for what, sig := range map[string][]byte{"expiry": expiring, "leaf-notAfter": shortLived} {
+				out, _ := v.Verify(ctx, desc, sig, opts)
+				r.Eval("long-lived|" + format + "|" + name + "|" + what)
+				r.Event("long-lived-verifier-observations")
+				if out == nil {
+					continue
+				}
+				for _, res := range out.VerificationResults {
+					if what == "expiry" && res.Type == trustpolicy.TypeExpiry && res.Error == nil {
+						r.Violation(map[string]string{"kind": "stale-clock", "what": "expiry", "verifier": name}, fmt.Sprintf("%s: a %s verifier passed the expiry validation %.1f s after the signature expired (%v)", format, name, time.Since(expiry).Seconds(), expiry), nil)
+					}
+					if what == "leaf-notAfter" && res.Type == trustpolicy.TypeAuthenticTimestamp && res.Error == nil {
+						r.Violation(map[string]string{"kind": "stale-clock", "what": "certificate-validity", "verifier": name}, fmt.Sprintf("%s: a %s verifier passed authenticTimestamp %.1f s after the leaf certificate expired (%v)", format, name, time.Since(shortLeaf.Cert.NotAfter).Seconds(), shortLeaf.Cert.NotAfter), nil)
+					}
+				}
+			}
+		}
+	}
 }
